@@ -2,6 +2,7 @@ import Props.GenCapstoneJoin
 import Props.GenCapstoneAppend
 import Props.GenCapstoneViews
 import Props.GenCapstoneRebuild
+import Props.GenCapstoneIter
 import Proofs.System
 /-!
 # Props.GenCapstoneSystem — every history of the TRANSLATED operations
@@ -211,6 +212,24 @@ theorem translated_convergence {U : List Entry} {L : List Log} (r : TReach U L) 
     constructor
     · rintro ⟨x, hx, rfl⟩; exact ⟨x, (hheads x).mp hx, rfl⟩
     · rintro ⟨x, hx, rfl⟩; exact ⟨x, (hheads x).mpr hx, rfl⟩
+
+/-- **C15 for every replica of every reachable state**: the translated `Iterator` without bounds sends exactly what
+    the translated `ToSnapshot` lists as values, newest first; with any options, what it sends are entries of the
+    log, at most `amount` of them -/
+theorem translated_system_iterator {U : List Entry} {L : List Log} (r : TReach U L) {l : Log} (hl : l ∈ L)
+    (ho : OrderOk l.sortFn l.entries) :
+    (∃ hs vs, Generated.Go.toSnapshot (traverseFuel l.entries l.heads) l.entries (before l.sortFn) l.heads = some (hs, vs) ∧
+      Generated.Go.iterator (iterFuel l {}) l.entries (before l.sortFn) l.heads none none none none none = some vs.reverse) ∧
+    (∀ (o : IterOpts) (out : List Entry), (∀ h, o.gte = some h → h ≠ []) → (∀ h, o.gt = some h → h ≠ []) →
+      Generated.Go.iterator (iterFuel l o) l.entries (before l.sortFn) l.heads o.amount o.lte o.lt o.gte o.gt = some out →
+      (∀ x ∈ out, x ∈ l.entries) ∧ (∀ a, o.amount = some a → 0 ≤ a → out.length ≤ a.toNat)) := by
+  have T := treach_inv r
+  have I := T.inv l hl
+  have hE : ∀ e ∈ l.entries, e.hash ≠ [] := fun e he => T.uNe e (I.inU e he)
+  refine ⟨⟨hashes l.heads, values l, toSnapshot_eq l hE (fun e he => hE e (I.headsIn e he)),
+    translated_iterator_default I ho hE⟩, ?_⟩
+  intro o out hgte hgt h
+  exact translated_iterator_sound I o hE hgte hgt out h
 
 /-- progress: in a reachable state the translated `Append` of any replica (ordering a strict total order on its
     entries, any pointer count, a fresh non-empty CID) returns, and its result is reachable -/
